@@ -447,6 +447,8 @@ fn c19_combine_rescore_modes() {
   assert!(mx == if a > b { a } else { b }, "C19: max is not the larger score");
   assert!(mn == if a < b { a } else { b }, "C19: min is not the smaller score");
   kani::cover!(a > b && mx == a && mn == b, "max/min distinguish");
+  kani::cover!(b == 0.0 && a > 0.0 && m == 0.0 && mn == 0.0, "rescore score of exactly zero (multiply / min give 0)");
+  kani::cover!(a > 0.0 && b > 0.0 && m < a, "multiply by a factor below one lowers the score");
 }
 
 //@ props: C16
